@@ -116,10 +116,10 @@ def normalise(spec):
     """What a write/read cycle is expected to give back (documented normalisations only)."""
     s = _sorted_variants(copy.deepcopy(spec))
     s["tree"]["platforms"] = sorted(set(s["tree"]["platforms"]) | {s["tree"]["arch"]})
-    s["tree"]["build_timestamp"] = int(s["tree"]["build_timestamp"])
+    # (the build timestamp comes back as the number that was written: an integer as an integer, a float as that float)
     if not s["release"]["is_layered"]:
         s["base_product"] = None
-    if s["media"] is not None and not s["media"]["discnum"] and not s["media"]["totaldiscs"]:
+    if s["media"] is not None and s["media"]["discnum"] is None and s["media"]["totaldiscs"] is None:
         s["media"] = None
     s["stage2"] = {k: (v or None) for k, v in s["stage2"].items()}
     s["images"] = {p: dict(t) for p, t in s["images"].items()}
@@ -139,7 +139,10 @@ def _mk_variant(ti, v):
 
 def _add_tree(ti, container, v, owner=None):
     var = _mk_variant(owner or ti, v)           # (owner: the variant object was made for ANOTHER tree and is added to this one)
-    container.add(var)
+    if container is ti.variants and v["id"] in container.variants:
+        container.add(var, variant_id=v["uid"])  # a second top-level variant with this id: registered under its UID, as the reader does
+    else:
+        container.add(var)
     for c in v["children"]:
         _add_tree(ti, var, c, owner)
     return var
@@ -218,7 +221,9 @@ def expected_observation(spec):
 # edits
 # ------------------------------------------------------------------------------------------------
 
-TEXTS = ["Fedora", "Red Hat  Enterprise Linux", "MiXed Case", "Näme 日本", "a=b:c #d ;e [f]", "100% %(name)s %%"]
+TEXTS = ["Fedora", "Red Hat  Enterprise Linux", "MiXed Case", "Näme 日本", "a=b:c #d ;e [f]", "100% %(name)s %%",
+         # one line for a file reader (only \n ends a line), several for str.splitlines()
+         "Fedora\u2028 21", "a\x0cb\x1cc\x85d"]
 VERSIONS = ["21", "7.0", "2.1.3", "Rawhide"]
 TIMESTAMPS = [1, 123456, 2 ** 33]
 PLATFORM_POOL = ["xen", "efi", "ppc64le"]
@@ -244,7 +249,7 @@ def edits(spec, seed=0, max_depth=3, with_float=False, with_main=False):
     for a in ("x86_64", "src", "aarch64"):
         if spec["tree"]["arch"] != a and not spec["images"]:
             out.append(["arch", a])
-    for t in TIMESTAMPS + ([1417653911.75, 0.5, -1, -5.5] if with_float else []):
+    for t in TIMESTAMPS + [1417653911.75, 0.5, -1, -5.5, 5.0, 1e22]:
         if spec["tree"]["build_timestamp"] != t:
             out.append(["timestamp", t])
     for p in PLATFORM_POOL:
@@ -268,6 +273,10 @@ def edits(spec, seed=0, max_depth=3, with_float=False, with_main=False):
         if "Server-optional" not in [v["uid"] for v, _, _ in nodes] and "optional" not in top_ids:
             out.append(["addvar", None, vspec("optional", "optional", uid="Server-optional",
                                               paths={"packages": "opt/Packages", "repository": "opt"})])
+        if "Server-optional" in top_uids and "Client-optional" not in top_uids:
+            # a second top-level variant with the SAME id: only their UIDs tell them apart
+            out.append(["addvar", None, vspec("optional", "optional", uid="Client-optional",
+                                              paths={"packages": "copt/Packages", "repository": "copt"})])
         for v, depth, _ in nodes:
             if depth >= max_depth or ("-" in v["uid"] and depth == 1):
                 continue
@@ -291,7 +300,10 @@ def edits(spec, seed=0, max_depth=3, with_float=False, with_main=False):
     for mi, ii in ((None, None), ("LiveOS/squashfs.img", None), (None, "images/inst.img"), ("images/install.img", "images/inst.img")):
         if (spec["stage2"]["mainimage"], spec["stage2"]["instimage"]) != (mi, ii):
             out.append(["stage2", mi, ii])
-    for m in (None, {"discnum": 1, "totaldiscs": 1}, {"discnum": 2, "totaldiscs": 3}, {"discnum": 2, "totaldiscs": 2}):
+    for m in (None, {"discnum": 1, "totaldiscs": 1}, {"discnum": 2, "totaldiscs": 3}, {"discnum": 2, "totaldiscs": 2},
+              # half-set numbering: written as given or refused, never dropped silently (both unset/zero = no media section)
+              {"discnum": 0, "totaldiscs": 3}, {"discnum": 2, "totaldiscs": 0}, {"discnum": 1, "totaldiscs": None},
+              {"discnum": None, "totaldiscs": 2}, {"discnum": 0, "totaldiscs": 0}):
         if spec["media"] != m:
             out.append(["media", m])
     if len(spec["checksums"]) < 3:
